@@ -59,6 +59,7 @@ Expected(c, g) ==
              ELSE LET avg == AverageProfile(st)
                       ch == ClipChoice(g.t, avg, Frac(c.args.c[1], c.args.c[2]))
                   IN IF ~ch.ok THEN [status |-> "poisoned"]
+                     ELSE IF ClipTie(avg, Frac(c.args.c[1], c.args.c[2])) THEN [status |-> "tie"]
                      ELSE [status |-> "ok", clipped |-> ch.clipped, margin |-> ch.margin, iterations |-> Tstop,
                            printed |-> PrintedOf(g.t, ch.prof)]
 
